@@ -94,7 +94,41 @@ class C12(fw.Prop):
             cls._shared = CRCCCITT()
         return cls._shared
 
+    def make_thread_case(self, d):
+        """two links served by two threads share the calculators the library keeps (frames.FCS / frames.HCS and one of ours): every
+        value is still the X-25 of its own message."""
+        def impl():
+            import sys
+            import threading
+            from dlms_cosem.hdlc import address, frames
+            c, srv = address.HdlcAddress(16, None, "client"), address.HdlcAddress(1, 17, "server")
+            calc = self.shared()
+            wrong = []
+
+            def work(seed):
+                for i in range(150):
+                    msg = bytes((seed * 31 + i * 7 + j * 13) % 256 for j in range(40 + (i + seed) % 200))
+                    if bytes(calc.calculate_for(msg)) != x25_ref(msg):
+                        wrong.append(("calc", seed, i))
+                    f = frames.InformationFrame(c, srv, msg, send_sequence_number=i % 8, receive_sequence_number=seed % 8).to_bytes()
+                    if bytes(f[-3:-1]) != x25_ref(bytes(f[1:-3])):
+                        wrong.append(("frame", seed, i))
+            old = sys.getswitchinterval()
+            sys.setswitchinterval(1e-6)
+            try:
+                ts = [threading.Thread(target=work, args=(k,)) for k in (1, 2, 3)]
+                for t in ts:
+                    t.start()
+                for t in ts:
+                    t.join()
+            finally:
+                sys.setswitchinterval(old)
+            return "ok threads" + ("" if not wrong else f" !wrong-values-under-concurrency:{len(wrong)}")
+        return fw.Case("echo threads", impl, "prop", d, tags=("two-threads",))
+
     def make_case(self, d):
+        if d.get("threads"):
+            return self.make_thread_case(d)
         if d.get("frame"):
             return self.make_frame_case(d)
         from dlms_cosem.crc import CRCCCITT
@@ -114,6 +148,20 @@ class C12(fw.Prop):
             out3 = self.shared().calculate_for(buf, lsb_first=lsb)
             if bytes(out3) != bytes(out):
                 return "ok " + fw.hx(out3) + " !reused-buffer-differs-from-fresh " + fw.hx(out)
+            # the message as a view into a larger buffer (a slice of the receive buffer, every second byte of another one): the
+            # check value is that of the bytes the view shows
+            big = bytearray(b"\x7e\xa0") + bytearray(msg) + bytearray(b"\x11\x22\x7e")
+            inter = bytearray(2 * len(msg))
+            inter[::2] = msg
+            for name, view in (("slice", memoryview(big)[2:2 + len(msg)]), ("strided", memoryview(inter)[::2]), ("bytes-slice", memoryview(bytes(big))[2:2 + len(msg)])):
+                try:
+                    outv = self.shared().calculate_for(view, lsb_first=lsb)
+                except fw._Timeout:
+                    raise
+                except Exception as e:  # noqa
+                    outv = None       # (a type the function does not take is its own business: refused, not miscalculated)
+                if outv is not None and bytes(outv) != bytes(out):
+                    return "ok " + fw.hx(outv) + f" !{name}-view-differs-from-bytes " + fw.hx(out)
             # ... and the message is the caller's: it is still what it was (appending the check value to it gives the residue)
             if bytes(buf) != msg:
                 return "ok " + fw.hx(out3) + " !message-buffer-was-modified " + fw.hx(bytes(buf)[:40])
@@ -227,6 +275,12 @@ class C12(fw.Prop):
             if hit and want[hit[0]] < (6 if deep else 2):
                 want[hit[0]] += 1
                 yield self.make_case({"frame": True, "payload": payload.hex(), "first": "e6e700aa", "ssn": ssn, "rsn": rsn})
+        # information fields containing what octet-transparency would escape (7D 5E, 7D 5D, 7D 7D, 7D 33): the check sequences are
+        # over the bytes between the flags as they are
+        for esc in ("7d5e", "7d5d", "7d7d", "7d33", "7d5e7d5d", "007d", "7d"):
+            for pre in ("", "e6e700", "c401"):
+                yield self.make_case({"frame": True, "payload": pre + esc + "0102", "first": "e6e700aa", "ssn": rng.randrange(8), "rsn": rng.randrange(8)})
+        yield self.make_case({"threads": True, "msg": ""})
         for _ in range(400 if deep else 40):
             yield self.make_case({"frame": True, "payload": bytes(rng.getrandbits(8) for _ in range(rng.randint(1, 60))).hex(),
                                   "first": bytes(rng.getrandbits(8) for _ in range(rng.randint(1, 20))).hex(),
